@@ -253,35 +253,73 @@ def check(ctx: Ctx) -> list[RuleResult]:
             r5.fail(f"{f.short}:device_factory", f.loc(n), f"device_factory() is called from {f.short}, not from the gated Gateway.get_device")
             continue
         node = _node(cfg, n)
-        dom = cfg.dominated_by(node, lambda x: x.kind == "stmt" and "check_filter_lists(device_id)" in norm(x.ast))
-        if dom:
-            r5.ok({"device_factory": "dominated by check_filter_lists(device_id)"})
+        # the gate: a call that dominates the factory and whose (repository) callee can raise LookupError by itself
+        gate_calls = []
+        for x in cfg.dominated_by(node, lambda x: x.kind == "stmt" and x.ast is not None):
+            for c in ast.walk(x.ast):
+                if isinstance(c, ast.Call):
+                    site = ctx.cg.site_of.get(id(c))
+                    for callee in (site.callees if site is not None else []):
+                        if any(isinstance(r, ast.Raise) and r.exc is not None and "LookupError" in norm(r.exc) for r in ast.walk(callee.node)):
+                            gate_calls.append((x, c, callee))
+        if gate_calls:
+            gate_fn = gate_calls[0][2]
+            r5.ok({"device_factory": f"dominated by {gate_fn.short}({norm(gate_calls[0][1].args[0]) if gate_calls[0][1].args else ''})"})
         else:
-            r5.fail(f"{gd.short}:ungated-factory", gd.loc(n), "device_factory() is reachable without check_filter_lists(device_id)")
+            gate_fn = None
+            r5.fail(f"{gd.short}:ungated-factory", gd.loc(n), "device_factory() is reachable without a dominating call of a filter function that can raise LookupError")
     # the LookupError is swallowed only for the gateway's own id
     r5.instances += 1
     r5.nontrivial += 1
-    tries = [t for t in own_nodes(gd.node) if isinstance(t, ast.Try) and any("check_filter_lists" in norm(b) for b in t.body)]
-    okh = False
+    gate_name = gate_fn.name if gate_fn is not None else "check_filter_lists"
+    tries = [t for t in own_nodes(gd.node) if isinstance(t, ast.Try) and any(isinstance(c, ast.Call) and norm(c.func).split(".")[-1] == gate_name for b in t.body for c in ast.walk(b))]
+    okh = not tries  # no handler at all: nothing is swallowed
     for t in tries:
         for h in t.handlers:
+            # the handler must re-raise unless the id is the gateway's own: every path through it that does not raise is under a
+            # test implying device_id == <protocol>.hgi_id
             hb = h.body
-            if len(hb) == 1 and isinstance(hb[0], ast.If) and norm(hb[0].test) == "device_id != self._protocol.hgi_id" and isinstance(hb[0].body[0], ast.Raise) and hb[0].body[0].exc is None:
+            if len(hb) == 1 and isinstance(hb[0], ast.If) and not hb[0].orelse and _always_reraises(hb[0].body):
+                for atom, holds in _implied_atoms(hb[0].test, False):  # what holds when the re-raise is skipped
+                    if isinstance(atom, ast.Compare) and len(atom.ops) == 1 and "hgi_id" in norm(atom) and "device_id" in norm(atom):
+                        if (isinstance(atom.ops[0], ast.NotEq) and not holds) or (isinstance(atom.ops[0], ast.Eq) and holds):
+                            okh = True
+            elif _always_reraises(hb):
                 okh = True
     if okh:
         r5.ok({"LookupError_swallowed_only_if": "device_id == self._protocol.hgi_id"})
     else:
         r5.fail(f"{gd.short}:swallow", gd.loc(), "the filter's LookupError is swallowed for ids other than the gateway's own")
-    cfl = repo.func("ramses_rf.gateway.Gateway.get_device.check_filter_lists")
-    tests = [norm(n.test) for n in cfl.node.body if isinstance(n, ast.If) and any(isinstance(b, ast.Raise) for b in n.body)]
+    if gate_fn is None:
+        raise AnalysisError("Gateway.get_device: the filter function that gates device creation was not found")
+    cfl = gate_fn
     r5.instances += 1
     r5.nontrivial += 1
-    has_block = any(t == "dev_id in self._exclude" for t in tests)
-    has_enf = any("self._enforce_known_list" in t and "dev_id not in self._include" in t for t in tests)
-    if has_block and has_enf:
-        r5.ok({"check_filter_lists": tests})
+    try:
+        tabg = PredEval(ctx, cfl).table()
+    except Unsupported as err:
+        raise AnalysisError(f"{cfl.short} is not a decision procedure the evaluator understands: {err}") from err
+    pname = [a.arg for a in cfl.node.args.args if a.arg != "self"][:1]
+    pn = pname[0] if pname else "dev_id"
+    A_EXC = next((a for a in tabg.atoms if a.replace(" ", "") == f"{pn}inself._exclude"), None)
+    A_ENF = next((a for a in tabg.atoms if a == "self._enforce_known_list"), None)
+    A_INC = next((a for a in tabg.atoms if a.replace(" ", "") in (f"{pn}notinself._include", f"{pn}inself._include")), None)
+    if A_EXC is None or A_ENF is None or A_INC is None:
+        r5.fail(f"{cfl.short}:clauses", cfl.loc(), f"{cfl.short} no longer tests the block list, the enforcement flag and the known list (tests found: {tabg.atoms})")
     else:
-        r5.fail(f"{cfl.short}:clauses", cfl.loc(), f"check_filter_lists no longer refuses both block-listed and (when enforced) unlisted ids: {tests}")
+        inc_neg = "notin" in A_INC.replace(" ", "")
+        def refused(r) -> bool:
+            return isinstance(r, tuple) and len(r) == 2 and r[0] == "raise" and "LookupError" in r[1]
+        others = [a for a in tabg.atoms if a not in (A_EXC, A_ENF, A_INC)]
+        lax_block = [a for a, r in tabg.rows if a[A_EXC] and not refused(r)]
+        # enforced and unlisted -> refused, whatever the other tests say, except the documented gateway exemption (an atom on hgi)
+        lax_enf = [a for a, r in tabg.rows if a[A_ENF] and (bool(a[A_INC]) == inc_neg) and not refused(r) and not any("hgi" in o and not a[o] for o in others)]
+        if lax_block:
+            r5.fail(f"{cfl.short}:block-listed-passes", cfl.loc(), f"{cfl.short} lets a block-listed id through: " + tabg.describe({k: v for k, v in lax_block[0].items() if k != "__effects__"})[:240])
+        elif lax_enf:
+            r5.fail(f"{cfl.short}:unlisted-passes", cfl.loc(), f"with the known list enforced, {cfl.short} lets an unlisted id through: " + tabg.describe({k: v for k, v in lax_enf[0].items() if k != "__effects__"})[:240])
+        else:
+            r5.ok({"gate": cfl.short, "decision_table_rows": len(tabg.rows), "refuses": "block-listed ids; unlisted ids when enforced (bar the gateway itself)"})
     # dispatcher: LookupError from the source ends processing before any handler is scheduled
     pm = repo.func("ramses_rf.dispatcher.process_msg")
     r5.instances += 1
@@ -308,21 +346,28 @@ def check(ctx: Ctx) -> list[RuleResult]:
     out.append(r5)
 
     # ---- R6 ---------------------------------------------------------------------------
-    r6 = RuleResult("R6", "filter mode selection", "select_device_filter_mode never turns enforcement on; off only for an empty known list", min_instances=1)
+    # decision table of select_device_filter_mode (predeval.py): the mode returned is the requested one, except that enforcement
+    # is switched off for an empty known list - it is never switched *on*, and never off for a non-empty list
+    r6 = RuleResult("R6", "filter mode selection", "decision table: select_device_filter_mode returns (requested and known list non-empty)", min_instances=1)
     sf = repo.func("ramses_tx.schemas.select_device_filter_mode")
-    writes = [n for n in own_nodes(sf.node) if isinstance(n, ast.Assign) and norm(n.targets[0]) == "enforce_known_list"]
     r6.instances += 1
     r6.nontrivial += 1
-    bad = []
-    for w in writes:
-        par = getattr(w, "parent", None)
-        if not (isinstance(w.value, ast.Constant) and w.value.value is False and isinstance(par, ast.If) and norm(par.test) == "enforce_known_list and (not known_list)"):
-            bad.append(norm(w))
-    rets = [norm(n.value) for n in own_nodes(sf.node) if isinstance(n, ast.Return)]
-    if not bad and rets == ["enforce_known_list"]:
-        r6.ok({"writes": [norm(w) for w in writes], "returns": rets})
+    try:
+        tab6 = PredEval(ctx, sf).table()
+    except Unsupported as err:
+        raise AnalysisError(f"select_device_filter_mode is not a decision procedure the evaluator understands: {err}") from err
+    REQ, KL = "enforce_known_list", "known_list"
+    if REQ not in tab6.atoms:
+        raise AnalysisError(f"select_device_filter_mode: the requested mode is not tested/returned (atoms: {tab6.atoms})")
+    rows6 = tab6.rows
+    if KL not in tab6.atoms:
+        rows6 = [({**a, KL: b}, r) for a, r in rows6 for b in (False, True)]
+    bad6 = [(a, r) for a, r in rows6 if not isinstance(r, bool) or r != (bool(a[REQ]) and bool(a[KL]))]
+    if bad6:
+        a, r = bad6[0]
+        r6.fail(f"{sf.short}:mode", sf.loc(), f"select_device_filter_mode returns {r!r} for requested={a[REQ]}, known list {'non-empty' if a[KL] else 'empty'}: expected {bool(a[REQ]) and bool(a[KL])} (enforcement is only ever switched off, and only for an empty known list)")
     else:
-        r6.fail(f"{sf.short}:mode", sf.loc(), f"select_device_filter_mode alters the requested enforcement other than switching it off for an empty known list: writes {bad}, returns {rets}")
+        r6.ok({"rows": len(rows6), "returns": "requested and known_list non-empty"})
     out.append(r6)
     # ---- R7 ---------------------------------------------------------------------------
     # The filter configuration is fixed at construction: the gateway's and the protocol's block list, known list and enforcement
@@ -403,3 +448,24 @@ def _memo_key_gaps(f, params: list[str]) -> "list[tuple[ast.AST, list[str], set[
         if missing and any(nm in params for nm in names):
             out.append((n, names, missing))
     return out
+
+
+def _always_reraises(body: list) -> bool:
+    if not body:
+        return False
+    last = body[-1]
+    if isinstance(last, ast.Raise):
+        return True
+    if isinstance(last, ast.If) and last.orelse:
+        return _always_reraises(last.body) and _always_reraises(last.orelse)
+    return False
+
+
+def _implied_atoms(t: ast.expr, edge: bool) -> "list[tuple[ast.expr, bool]]":
+    if isinstance(t, ast.UnaryOp) and isinstance(t.op, ast.Not):
+        return _implied_atoms(t.operand, not edge)
+    if isinstance(t, ast.BoolOp):
+        if (isinstance(t.op, ast.And) and edge) or (isinstance(t.op, ast.Or) and not edge):
+            return [x for v in t.values for x in _implied_atoms(v, edge)]
+        return []
+    return [(t, edge)]
